@@ -132,6 +132,37 @@ class Worker:
         self.kill()
 
 
+class OneShotWorker:
+    """Runs every job in a brand-new process with ASLR off (used for the TSan
+    flavour: TSan reports each race once per process, and some happens-before
+    edges depend on heap addresses; a fresh, address-stable process makes the
+    verdict a function of the job alone)."""
+
+    def __init__(self, flavour):
+        self.flavour = flavour
+
+    def run(self, jobid, kind, args, timeout):
+        env = dict(os.environ)
+        env["MALLOC_ARENA_MAX"] = "1"
+        env["VERIF_NOASLR"] = "1"
+        cmd = [binpath(self.flavour), "one", kind] + fmt_args(args).split(" ")
+        try:
+            p = subprocess.run(cmd, capture_output=True, env=env, timeout=timeout)
+        except subprocess.TimeoutExpired as e:
+            return {"ok": False, "timeout": True, "exit": None, "stderr": (e.stderr or b"").decode("utf-8", "replace")[-200000:]}
+        err = p.stderr.decode("utf-8", "replace")[-400000:]
+        for line in p.stdout.split(b"\n"):
+            if line.startswith(b"RESULT "):
+                try:
+                    return {"ok": True, "res": json.loads(line.split(b" ", 2)[2].decode("utf-8", "replace")), "stderr": err}
+                except Exception as ex:
+                    return {"ok": False, "timeout": False, "exit": p.returncode, "stderr": "bad json %s" % ex}
+        return {"ok": False, "timeout": False, "exit": p.returncode, "stderr": err}
+
+    def close(self):
+        pass
+
+
 class Pool:
     """Runs jobs = list of dict(flavour, kind, args, timeout) on long-lived
     workers; returns results in job order. Workers are created lazily per
@@ -148,6 +179,8 @@ class Pool:
             lst = self.idle.setdefault(flavour, [])
             if lst:
                 return lst.pop()
+        if flavour.endswith("tsan"):
+            return OneShotWorker(flavour)
         return Worker(flavour)
 
     def _put(self, w):
@@ -192,7 +225,7 @@ class Pool:
 
     def run_fresh(self, job):
         """Runs one job in a brand-new process (used for the replay gate)."""
-        w = Worker(job["flavour"])
+        w = OneShotWorker(job["flavour"]) if job["flavour"].endswith("tsan") else Worker(job["flavour"])
         try:
             r = w.run(0, job["kind"], job["args"], job.get("timeout", 300))
         finally:
@@ -229,13 +262,16 @@ def match_known(prop, key):
 
 
 # ---------------------------------------------------------------- ddmin
+MIN_DEADLINE = [None]  # wall-clock deadline for all minimisation work of the current check run
+
+
 def ddmin(items, test, budget=60):
     """Classic ddmin on a list; test(sublist) -> True if the failure persists.
     Bounded by `budget` test calls. Returns a (locally) minimal failing list."""
     calls = [0]
 
     def t(x):
-        if calls[0] >= budget:
+        if calls[0] >= budget or (MIN_DEADLINE[0] is not None and time.time() > MIN_DEADLINE[0]):
             return False
         calls[0] += 1
         return test(x)
